@@ -545,17 +545,17 @@ def generate(tier, seed):
     if not q:
         bases += [("int", 0x0040, [0xFF, 0xFF, 0xFF, 0xFF]), ("raw", 0xFFFF, []), ("uint", 0x3A0A, [0x0A])]
     cases = []
-    cases += gen_valid(rng, 300 if q else 3000)
-    cases += gen_mutations(rng, bases, attempts=(1,) if q else (1, 2, 8), per_base=None)
-    cases += gen_wrong(rng, 600 if q else 6000)
+    cases += gen_valid(rng, 1500 if q else 6000)
+    cases += gen_mutations(rng, bases, attempts=(1, 2, 8), per_base=None)
+    cases += gen_wrong(rng, 3000 if q else 12000)
     cases += gen_flags_all(rng)
-    cases += gen_c05(rng, 6 if q else 60)
-    cases += gen_c04(rng, 2 if q else 4, 300 if q else 3000)
-    cases += gen_stale(rng, 300 if q else 3000)
-    cases += gen_first_call_stale(rng, 40 if q else 400)
+    cases += gen_c05(rng, 30 if q else 120)
+    cases += gen_c04(rng, 3 if q else 4, 1500 if q else 8000)
+    cases += gen_stale(rng, 1500 if q else 6000)
+    cases += gen_first_call_stale(rng, 200 if q else 800)
     cases += gen_c02_exhaustive(rng, [1] if q else [1, 2])
-    cases += gen_c02_random(rng, 200 if q else 3000)
+    cases += gen_c02_random(rng, 1000 if q else 6000)
     cases += gen_devid_all(rng, 16 if q else 1)
-    cases += gen_faults(rng, 400 if q else 6000)
+    cases += gen_faults(rng, 2000 if q else 12000)
     cases += gen_big_noise(rng, 3 if q else 12)
     return cases
